@@ -54,13 +54,18 @@ pub fn run_history(inputs: &[Vec<u8>], cfg: &ReaderCfg, opts: &OptSpec, st: Opti
                 return Err(format!("{} panicked on input #{} ({:?}): {}", if initial { "into_struct" } else { "extend_struct" }, i + 1, cfg, panic_message(p)));
             }
         };
-        st.count(match &res {
-            Ok(_) => "result.ok",
-            Err(ParserError::QuickXmlError(..)) => "result.err_reader",
-            Err(ParserError::AttrError(_)) => "result.err_attr",
-            Err(ParserError::FromUtf8Error(_)) => "result.err_utf8",
-            Err(ParserError::ParsingError(_)) => "result.err_no_root",
-        });
+        // only the syntax-error variant is named (C08's statement is about what it carries); the other variants are
+        // told apart by the leading identifier of their Debug form, so that a reworked error type still builds
+        match &res {
+            Ok(_) => st.count("result.ok"),
+            Err(ParserError::QuickXmlError(..)) => st.count("result.err_reader"),
+            Err(e) => {
+                st.count("result.err_other");
+                let d = format!("{:?}", e);
+                let head: String = d.chars().take_while(|c| c.is_alphanumeric() || *c == '_').take(40).collect();
+                st.add(&format!("result.err_other.{}", head), 1);
+            }
+        }
         match res {
             Ok(r) => {
                 for by_name in [false, true] {
@@ -291,9 +296,7 @@ impl Property for C07 {
             ("nontrivial", 50000),
             ("result.ok", 10000),
             ("result.err_reader", 5000),
-            ("result.err_attr", 500),
-            ("result.err_utf8", 500),
-            ("result.err_no_root", 500),
+            ("result.err_other", 1500),
             ("depth.100..200", 500),
             ("reader.chunked", 10000),
             ("cfg.trim_text", 10000),
